@@ -98,6 +98,10 @@ type Scanner struct {
 	// unfinishedLiteral a sign that a literal has been started but not completed.
 	unfinishedLiteral bool
 
+	// afterFirstSlash a sign that the first slash of an annotation has been read
+	// but not the character which says what kind of annotation it is.
+	afterFirstSlash bool
+
 	// lengthComputing used when a file contains data after the schema (for example,
 	// in jApi).
 	lengthComputing bool
@@ -239,6 +243,12 @@ func (s *Scanner) Next() (lexeme.LexEvent, bool) {
 		if len(s.finds) != 0 {
 			return s.processingFoundLexeme(s.shiftFound()), true
 		}
+	}
+
+	if s.afterFirstSlash {
+		err := kit.NewJSchemaError(s.file, errs.ErrUnexpectedEOF.F())
+		err.SetIndex(s.dataSize - 1)
+		panic(err)
 	}
 
 	if s.stack.Len() != 0 {
